@@ -219,3 +219,29 @@ package table
 //@   claims make bounds pre variant inv-init inv-keep
 //@   requires 0 <= attrsLen && attrsLen <= 1000000
 //@   loop 0 decreases len(paths)
+
+// ---- equal-cost multipath set ---------------------------------------------------------------
+//@ props C03
+//@ func (*Path).Compare
+//@   pure
+//@   spec-only
+
+// pairwise sortedness by the statement's order
+//@ spec sortedList(l []*Path) bool = forall i int, j int :: 0 <= i && i < j && j < len(l) ==> specPref(l[i], l[j])
+//@ spec wfList(l []*Path) bool = forall i int :: 0 <= i && i < len(l) ==> wfPath(l[i])
+
+// predicate handed to sort.Search: "unreachable, or not equal-cost with the best path"
+//@ func getMultiBestPath$1
+//@   requires 0 <= i && i < len(pathList)
+//@   requires pathList[i] != nil
+//@   pure
+//@   modifies nothing
+//@   ensures result == (pathList[i].IsNexthopInvalid || pathList[i].Compare(best) != 0)
+
+// from C03: "the equal-cost multipath set": exactly the reachable routes that tie with the best one
+//@ func getMultiBestPath
+//@   requires wfList(pathList) && sortedList(pathList)
+//@   modifies nothing
+//@   ensures len(result) <= len(pathList)
+//@   ensures forall i int :: 0 <= i && i < len(result) ==> result[i] == pathList[i] && !pathList[i].IsNexthopInvalid && pathList[i].Compare(pathList[0]) == 0
+//@   ensures forall i int :: len(result) <= i && i < len(pathList) ==> len(result) == 0 || pathList[i].IsNexthopInvalid || pathList[i].Compare(pathList[0]) != 0
